@@ -178,13 +178,19 @@ def tkind(t):
     return t[4] if len(t) > 4 else "series"
 
 
+def tkinds(t):
+    """the kinds a transition's probability function cycles through, one per evaluation ("a|b|c")"""
+    return tkind(t).split("|")
+
+
 def risky_sets(case):
     """(states whose transition set holds a non-triggered transition returning a re-ordered Series,
         states whose transition set is all non-triggered integer dtype)"""
     spec = Spec(case)
-    perm = {a for a in range(spec.ns) if any(spec.trans[t][2] == NOT and tkind(spec.trans[t]) in PERM_KINDS for t in spec.by_from[a])}
+    perm = {a for a in range(spec.ns)
+            if any(spec.trans[t][2] == NOT and set(tkinds(spec.trans[t])) & set(PERM_KINDS) for t in spec.by_from[a])}
     ints = {a for a in range(spec.ns) if spec.by_from[a]
-            and all(spec.trans[t][2] == NOT and tkind(spec.trans[t]) == "series_int" for t in spec.by_from[a])}
+            and all(spec.trans[t][2] == NOT and "series_int" in tkinds(spec.trans[t]) for t in spec.by_from[a])}
     return perm, ints
 
 
@@ -224,8 +230,15 @@ def _run(case):
         def cleanup_effect(self, index, event_time):
             CLEAN.append([code[self.state_id], [int(i) for i in index]])
 
+    COUNT = {}
+
     def values(ps, kind, index):
-        """the simulant's own probability, by LABEL, in every container / dtype a probability function may return"""
+        """the simulant's own probability, by LABEL, in every container / dtype a probability function may return;
+        "a|b|c": another representation at every evaluation of the same function"""
+        if "|" in kind:
+            ks = kind.split("|")
+            COUNT[id(ps)] = COUNT.get(id(ps), -1) + 1
+            kind = ks[COUNT[id(ps)] % len(ks)]
         vals = [ps[int(i)] / WD for i in index]
         if kind == "series":
             return pd.Series(vals, index=index, dtype=float)
@@ -300,7 +313,7 @@ def _run(case):
                 a, b, trig, ps = t[:4]
                 kw = {}
                 if tkind(t) != "default":
-                    kw["probability_func"] = pfunc(ps, tkind(t), q)
+                    kw["probability_func"] = pfunc(list(ps), tkind(t), q)
                 if trig != NOT or q % 2:
                     kw["triggered"] = TRIG[trig]
                 tr = Transition(self.states[a], self.states[b], **kw)
@@ -368,14 +381,12 @@ def _run(case):
             self.k += 1
             full = pd.Index(range(n), dtype="int64")
             res = []
-            for sc in scenes:
+            for q_sc, sc in enumerate(scenes):
                 rec = {"trig": [], "draws": [], "calls": []}
-                for tid, onoff, sims in sc["trig"]:
-                    try:
-                        (self.trs[tid].set_active if onoff == "on" else self.trs[tid].set_inactive)(pd.Index(sims, dtype="int64"))
-                        rec["trig"].append("ok")
-                    except Exception as e:  # noqa: BLE001
-                        rec["trig"].append("err:" + type(e).__name__)
+                if q_sc == 0 and early and EARLY:
+                    rec["trig"] = EARLY.pop(0)         # fired by the other component's time_step__prepare listener
+                else:
+                    rec["trig"] = fire(self.trs, sc["trig"])
                 unt = set(sc.get("untracked", []))
                 self.population_view.update(pd.Series([i not in unt for i in range(n)], index=full, name="tracked"))
                 for st in self.states:
@@ -428,12 +439,40 @@ def _run(case):
     class PState2(State):
         pass
 
+    def fire(trs, ops):
+        res = []
+        for tid, onoff, sims in ops:
+            try:
+                (trs[tid].set_active if onoff == "on" else trs[tid].set_inactive)(pd.Index(sims, dtype="int64"))
+                res.append("ok")
+            except Exception as e:  # noqa: BLE001
+                res.append("err:" + type(e).__name__)
+        return res
+
+    # trigger calls of the first scene of every step made by ANOTHER component, in an earlier phase of the same step
+    early = bool(case.get("early_trig")) and case.get("phase", "time_step") != "time_step__prepare"
+    EARLY = []
+
+    class Firer(Component):
+        def __init__(self, probe):
+            super().__init__()
+            self.probe, self.k = probe, 0
+
+        @property
+        def name(self):
+            return "c17_firer"
+
+        def on_time_step_prepare(self, event):
+            if self.k < len(case["steps"]) and case["steps"][self.k]:
+                EARLY.append(fire(self.probe.trs, case["steps"][self.k][0]["trig"]))
+            self.k += 1
+
     setattr(Probe, PHASES[case.get("phase", "time_step")], lambda self, event: self.act(event))
 
     SimulationContext._clear_context_cache()
     try:
         probe = Probe()
-        sim = SimulationContext(components=[probe],
+        sim = SimulationContext(components=[probe] + ([Firer(probe)] if early else []),
                                 configuration={"population": {"population_size": n},
                                                "randomness": {"random_seed": case["seed"], "map_size": case.get("map_size", 1009)}},
                                 logging_verbosity=0)
@@ -652,12 +691,13 @@ class C17(Prop):
         ns = rng.randint(2, 5)
         chain = ns >= 3 and rng.random() < 0.25      # a chain of transient states that is really walked
         ring = not chain and rng.random() < 0.12      # s0 -> s1 -> … -> s0, all (nearly) certain, nobody transient: a second move would show
+        history = not chain and not ring and rng.random() < 0.35   # ONE machine, the same index transitioned again and again (lesson 12)
         states = []
         for k in range(ns):
             tr = 0 if k == 0 or ring else int(rng.random() < 0.35)
             if chain:
                 tr = int(0 < k < ns - 1 or (k == ns - 1 and rng.random() < 0.3))
-            states.append([("t" if tr else "s") + str(k), int(rng.random() < (0.25 if (chain and tr) or ring else 0.5)), tr])
+            states.append([("t" if tr else "s") + str(k), int(rng.random() < (0.25 if (chain and tr) or ring else 0.8 if history else 0.5)), tr])
         if not chain and rng.random() < 0.5:      # shuffle so that transient states also come first in Machine.states
             rng.shuffle(states)
             if all(s[2] for s in states):
@@ -690,7 +730,7 @@ class C17(Prop):
                         if rows[s_][c] == 12 and k > 1:
                             rows[s_][(c + 1) % k] = 4
             for c, b in enumerate(outs):
-                trig = rng.choice([NOT] * (14 if chain or ring else 6) + [INACTIVE, INACTIVE, ACTIVE, ACTIVE])
+                trig = rng.choice([NOT] * (14 if chain or ring else 2 if history else 6) + [INACTIVE, INACTIVE, ACTIVE, ACTIVE])
                 trans.append([a, b, trig, [rows[s][c] for s in range(n)]])
         # what each probability function returns: every container / dtype / row order the code accepts (never normalised here)
         order_ok, int_ok = finding_status(SIG_ORDER) is not None, finding_status(SIG_INT) is not None
@@ -709,11 +749,23 @@ class C17(Prop):
                     kinds += ["series_int"] * 3
                 if all(v == WD for v in t[3]) and rng.random() < 0.5:
                     kinds = ["default"]
-                t.append(rng.choice(kinds))
-            if mine and not int_ok and all(t[2] == NOT and t[4] == "series_int" for t in mine):
+                kd = rng.choice(kinds)
+                if history and variety and kd != "default" and rng.random() < 0.5:      # another representation at every evaluation (lesson 13)
+                    kd = "|".join([kd] + [rng.choice([x for x in kinds if x != "default"]) for _ in range(rng.randint(1, 2))])
+                t.append(kd)
+            if mine and not int_ok and all(t[2] == NOT and "series_int" in t[4].split("|") for t in mine):
                 mine[0][4] = "series"          # an all-integer, non-triggered set is finding class SIG_INT
         triggered = [tid for tid, t in enumerate(trans) if t[2] != NOT]
         plain = [tid for tid, t in enumerate(trans) if t[2] == NOT]
+        extras = {"build": {"machine": rng.choice(["ctor", "ctor_tuple", "add_states", "add_states_twice"]),
+                            "self": rng.choice(["ctor", "method"]),
+                            "attach": rng.choice(["add_transition", "append", "extend"])},
+                  "phase": rng.choice(["time_step"] * 3 + ["time_step__prepare", "time_step__cleanup", "collect_metrics"]),
+                  "second": rng.random() < 0.25, "callables": rng.random() < 0.4, "rangeindex": rng.random() < 0.3,
+                  "early_trig": rng.random() < 0.3}
+        if history:
+            return dict({"n": n, "seed": rng.randint(0, 10 ** 6), "states": states, "trans": trans,
+                         "steps": self._history_steps(rng, n, ns, trans, triggered, plain)}, **extras)
         steps = []
         for _ in range(rng.choice([1, 1, 2])):
             scenes = []
@@ -759,12 +811,55 @@ class C17(Prop):
                     calls.insert(rng.randrange(len(calls) + 1), "event")
                 scenes.append(sc)
             steps.append(scenes)
-        return {"n": n, "seed": rng.randint(0, 10 ** 6), "states": states, "trans": trans, "steps": steps,
-                "build": {"machine": rng.choice(["ctor", "ctor_tuple", "add_states", "add_states_twice"]),
-                          "self": rng.choice(["ctor", "method"]),
-                          "attach": rng.choice(["add_transition", "append", "extend"])},
-                "phase": rng.choice(["time_step"] * 3 + ["time_step__prepare", "time_step__cleanup", "collect_metrics"]),
-                "second": rng.random() < 0.25, "callables": rng.random() < 0.4, "rangeindex": rng.random() < 0.3}
+        return dict({"n": n, "seed": rng.randint(0, 10 ** 6), "states": states, "trans": trans, "steps": steps}, **extras)
+
+    def _history_steps(self, rng, n, ns, trans, triggered, plain):
+        """Lesson 12: one machine object, one assignment, and the SAME index (verbatim: same labels, same order, or event.index)
+        transitioned again and again over several scenes and time steps; between two repeats exactly one kind of state-changing
+        call: set_inactive alone / set_active alone / both in either order (on a subset, on nobody, on everybody), an
+        untrack or retrack, a transition of another index, a clock step, nothing at all."""
+        with_out = [a for a in range(ns) if any(t[0] == a for t in trans)] or [0]
+        assign = [rng.choice(with_out) if rng.random() < 0.85 else rng.randrange(ns + 1) for _ in range(n)]
+        r = rng.random()
+        main = "event" if r < 0.3 else rng.sample(range(n), rng.randint(max(1, n // 2), n))
+        if main != "event" and rng.random() < 0.4:
+            main.sort()
+        other = rng.sample(range(n), rng.randint(1, n))
+        untracked = []
+
+        def subset():
+            q = rng.random()
+            return [] if q < 0.12 else list(range(n)) if q < 0.3 else sorted(rng.sample(range(n), rng.randint(1, n)))
+
+        steps, first = [], True
+        for _ in range(rng.choice([1, 2, 2, 3])):
+            scenes = []
+            for _ in range(rng.randint(2, 5)):
+                trig = []
+                for tid in triggered:
+                    if first:
+                        trig.append([tid, "on", sorted(rng.sample(range(n), rng.randint(max(1, n // 2), n)))])
+                        continue
+                    how = rng.choice(["none", "off", "off", "off", "on", "on", "off_on", "on_off"])
+                    if how in ("off", "off_on"):
+                        trig.append([tid, "off", subset()])
+                    if how in ("on", "off_on", "on_off"):
+                        trig.append([tid, "on", subset()])
+                    if how == "on_off":
+                        trig.append([tid, "off", subset()])
+                if plain and rng.random() < 0.05:
+                    trig.append([rng.choice(plain), rng.choice(["on", "off"]), [0]])
+                first = False
+                q = rng.random()
+                calls = [main] if q < 0.45 else [main, main] if q < 0.6 else [other, main] if q < 0.8 else [main, other, main]
+                if rng.random() < 0.25:              # untrack somebody / retrack everybody between two repeats
+                    untracked = [] if untracked else sorted(rng.sample(range(n), rng.randint(1, max(1, n // 2))))
+                sc = {"trig": trig, "assign": list(assign), "calls": [c if c == "event" else list(c) for c in calls]}
+                if untracked:
+                    sc["untracked"] = list(untracked)
+                scenes.append(sc)
+            steps.append(scenes)
+        return steps
 
     def boundary(self):
         B = []
@@ -839,6 +934,25 @@ class C17(Prop):
                                   "calls": [[5, 3, 1, 4, 2, 0], [0, 1, 2, 3, 4, 5], [4], "event"]},
                                  {"trig": [], "assign": [3, 3, 3, 3, 1, 2], "calls": [[5, 3, 1, 4, 2, 0], [2, 0, 1], "event", [3]]}]],
                       "callables": q == 1})
+        # history on ONE machine (lesson 12): the same index, verbatim, evaluated again after set_inactive alone, set_active alone,
+        # both orders, nothing, an untrack, a transition of another index, a clock step; everybody stays in `a` (self transitions)
+        for q, main in enumerate(["event", [0, 1, 2, 3, 4, 5], [5, 3, 1, 4, 0, 2], [1, 3, 5]]):
+            B.append({"n": 6, "seed": 30 + q, "states": [["a", 1, 0], ["b", 0, 0], ["c", 0, 0]],
+                      "trans": [[0, 1, INACTIVE if q % 2 else ACTIVE, [16, 16, 8, 16, 4, 16], "series|ndarray|list" if q == 1 else "series"],
+                                [0, 2, NOT, [0, 0, 4, 0, 4, 0], "series|series_named" if q == 2 else "series"]],
+                      "steps": [[{"trig": [[0, "on", [1, 3, 5]]], "assign": [0] * 6, "calls": [main]},
+                                 {"trig": [[0, "off", [3]]], "assign": [0] * 6, "calls": [main, main]},
+                                 {"trig": [[0, "off", []]], "assign": [0] * 6, "calls": [main]},
+                                 {"trig": [[0, "on", [0]]], "assign": [0] * 6, "calls": [main]}],
+                                [{"trig": [[0, "off", [1, 0]]], "assign": [0] * 6, "calls": [main]},
+                                 {"trig": [[0, "off", [5]], [0, "on", [5, 2]]], "assign": [0] * 6, "calls": [main]},
+                                 {"trig": [[0, "on", [4]], [0, "off", [4, 2]]], "assign": [0] * 6, "calls": [main, [2, 4], main]},
+                                 {"trig": [], "assign": [0] * 6, "untracked": [5], "calls": [main]},
+                                 {"trig": [[0, "off", [0, 1, 2, 3, 4, 5]]], "assign": [0] * 6, "calls": [main]}],
+                                [{"trig": [], "assign": [0] * 6, "calls": [main]},
+                                 {"trig": [[0, "on", [0, 1, 2, 3, 4, 5]]], "assign": [0] * 6, "calls": [main]},
+                                 {"trig": [[0, "off", [5, 1]]], "assign": [0] * 6, "calls": [main]}]],
+                      "early_trig": q == 3, "phase": ["time_step", "collect_metrics", "time_step", "time_step__cleanup"][q]})
         # a machine whose states have no transition at all; a machine with a single state
         B.append({"n": 3, "seed": 17, "states": [["a", 0, 0], ["b", 1, 1]], "trans": [],
                   "steps": [[{"trig": [], "assign": [0, 1, 2], "calls": ["event", [1], []]}]], "build": {"machine": "add_states"}})
@@ -1274,7 +1388,10 @@ class C17(Prop):
             T.add("machine:state-without-transitions")
         for t in case["trans"]:
             T.add({NOT: "trans:plain", INACTIVE: "trans:start-inactive", ACTIVE: "trans:start-active"}[t[2]])
-            T.add("pfunc:" + tkind(t) + ("" if t[2] == NOT else "(triggered)"))
+            for kd in tkinds(t):
+                T.add("pfunc:" + kd + ("" if t[2] == NOT else "(triggered)"))
+            if "|" in tkind(t):
+                T.add("pfunc:representation-changes-along-the-history")
         for key, val in sorted(case.get("build", {}).items()):
             T.add(f"build:{key}={val}")
         T.add("phase:" + case.get("phase", "time_step"))
@@ -1284,6 +1401,9 @@ class C17(Prop):
             T.add("pfunc:callable-objects/partials/methods")
         if case.get("rangeindex"):
             T.add("index:RangeIndex")
+        if case.get("early_trig") and case.get("phase", "time_step") != "time_step__prepare":
+            T.add("trigger:fired-by-another-component-in-an-earlier-phase")
+        T |= self._history_tags(case)
         if self._model_skipped(case):
             T.add("model-skipped:open-finding-class")
         ran = {(k, j): rec for k, j, sc, rec in self._walk(case, obs)}
@@ -1354,6 +1474,26 @@ class C17(Prop):
         if obs.get("_near"):
             T.add("compare:near-edge-skipped")
         return sorted(T)
+
+    def _history_tags(self, case):
+        """which intervening operation separates two verbatim repeats of the same (index, assignment) evaluation"""
+        T = set()
+        last = None        # (index, assign, untracked) of the most recent Machine.transition call
+        for step in case["steps"]:
+            for sc in step:
+                kinds = [o for _, o, _ in sc["trig"]]
+                for q, idx in enumerate(sc["calls"]):
+                    cur = (idx if idx == "event" else tuple(idx), tuple(sc["assign"]))
+                    if last is not None and cur == last[:2]:
+                        unt = tuple(sc.get("untracked", []))
+                        between = kinds if q == 0 else []
+                        what = ("nothing" if not between else "set_inactive-only" if set(between) == {"off"} else "set_active-only"
+                                if set(between) == {"on"} else "set_inactive-then-set_active" if between[-1] == "on" else "set_active-then-set_inactive")
+                        T.add("repeat-same-index-after:" + what)
+                        if unt != last[2]:
+                            T.add("repeat-same-index-after:untrack/retrack")
+                    last = cur + (tuple(sc.get("untracked", [])),)
+        return T
 
     def sample_view(self, case, obs):
         if case.get("kind") == "rows":
